@@ -6,7 +6,8 @@
 From Coq Require Import List NArith ZArith Bool QArith Qcanon.
 From Okv Require Import Base.Maps Base.Dec Model.Amount Model.Book Model.Query Model.PriceDb Model.Convert
      Model.ConvertSpec Proofs.PriceProofs Proofs.PriceTable Proofs.ConvertProofs
-     Model.Syntax Model.Lower Proofs.EventDates.
+     Model.Syntax Model.Lower Proofs.EventDates Proofs.ConversionOf.
+From Okv Require Model.Intern.
 Import ListNotations.
 Open Scope Qc_scope.
 
@@ -147,3 +148,29 @@ Theorem C10_effective_date_not_booked : forall f es ta tc,
   low_entries ta tc (map (redate f) es) = low_entries ta tc es.
 Proof. exact low_entries_redate. Qed.
 Print Assumptions C10_effective_date_not_booked.
+
+(* `-X T` at the command line (EvalOptions::to_conversion, modelled as Model/Lower.v
+   conversion_of): "no conversion" is the answer only when -X was not given ... *)
+Theorem C10_no_conversion_only_without_X : forall o tc sc,
+  conversion_of o tc sc = inl None <-> ro_exchange o = None.
+Proof. exact conversion_none_iff. Qed.
+Print Assumptions C10_no_conversion_only_without_X.
+
+(* ... a target nobody mentioned - a name that is not in the table of names read from ledger
+   and price DB, or one that is there but is neither a commodity nor an alias - is refused
+   (QueryError::CommodityNotFound): the report is not printed with its amounts unconverted ... *)
+Theorem C10_unknown_target_refused : forall o tc sc x,
+  ro_exchange o = Some x ->
+  (find_name tc x 0%N = None \/ exists i, find_name tc x 0%N = Some i /\ Okv.Model.Intern.resolve sc i = None) ->
+  conversion_of o tc sc = inr tt.
+Proof. exact conversion_unknown_refused. Qed.
+Print Assumptions C10_unknown_target_refused.
+
+(* ... and a known name, canonical or alias, converts into the commodity it resolves to with
+   the strategy the options ask for *)
+Theorem C10_known_target_converted : forall o tc sc x i c,
+  ro_exchange o = Some x -> find_name tc x 0%N = Some i -> Okv.Model.Intern.resolve sc i = Some c ->
+  conversion_of o tc sc =
+  inl (Some {| cv_strategy := if ro_historical o then Historical else UpToDate (ro_now o); cv_target := c |}).
+Proof. exact conversion_known_target. Qed.
+Print Assumptions C10_known_target_converted.
